@@ -81,14 +81,49 @@ func toStr(arg interface{}) string {
 	return ""
 }
 
+// quote is strconv.Quote for ASCII strings (Go escapes: \a \b \f \n \r \t \v
+// \\ \" and \xNN for the other control bytes and DEL); bytes above 0x7F need
+// UTF-8 decoding and end the path as a stated cut.
 func quote(s string) string {
+	const hex = "0123456789abcdef"
 	out := []byte{'"'}
+	// one decision for the common case (nothing to escape), built without
+	// branching; only strings that need escapes are walked byte by byte
+	needs := false
 	for i := 0; i < len(s); i++ {
 		c := s[i]
-		if c < 0x20 || c >= 0x7f || c == '"' || c == '\\' {
-			vfCut("vfmodel: %q of a string that needs escaping")
+		needs = vfOr(needs, vfOr(vfOr(c < 0x20, c >= 0x7f), vfOr(c == '"', c == '\\')))
+	}
+	if !needs {
+		out = append(out, s...)
+		return string(append(out, '"'))
+	}
+	for i := 0; i < len(s); i++ {
+		c := s[i]
+		switch {
+		case c >= 0x80:
+			vfCut("vfmodel: %q of a non-ASCII string")
+		case c == '"' || c == '\\':
+			out = append(out, '\\', c)
+		case c == '\a':
+			out = append(out, '\\', 'a')
+		case c == '\b':
+			out = append(out, '\\', 'b')
+		case c == '\f':
+			out = append(out, '\\', 'f')
+		case c == '\n':
+			out = append(out, '\\', 'n')
+		case c == '\r':
+			out = append(out, '\\', 'r')
+		case c == '\t':
+			out = append(out, '\\', 't')
+		case c == '\v':
+			out = append(out, '\\', 'v')
+		case c < 0x20 || c == 0x7f:
+			out = append(out, '\\', 'x', hex[c>>4], hex[c&15])
+		default:
+			out = append(out, c)
 		}
-		out = append(out, c)
 	}
 	return string(append(out, '"'))
 }
